@@ -729,6 +729,14 @@ func main() {
 					return w.run(cfg, true, o, t, subs)
 				})
 			}
+			for k := range rawVarTexts {
+				o, k, idx := o, k, h.Index()
+				h.Case(func(r *rng.R) sexp.Node {
+					t := &table{}
+					subs := append(canonical(t, o, ids(idx)), *rawGetSub(k, "variables"), *rawGetSub(k, "extensions"))
+					return w.run(cfg, true, o, t, subs)
+				})
+			}
 			n := len(malformedSubs(&table{}, o, rng.New(1), ids(0)))
 			for k := 0; k < n; k += 4 {
 				o, k, idx := o, k, h.Index()
@@ -782,6 +790,9 @@ func main() {
 					for j, nr := 0, r.Range(1, 2); j < nr; j++ {
 						subs = append(subs, *rawSub(o, r.Intn(nRawKinds), r, id))
 					}
+				}
+				if !o.Sub && r.Chance(1, 8) {
+					subs = append(subs, *rawGetSub(r.Intn(len(rawVarTexts)), rng.Pick(r, []string{"variables", "variables", "extensions"})))
 				}
 				if r.Chance(1, 40) {
 					subs = append(subs, preInitSub(t, o, rng.Pick(r, []string{"gws", "tws"}), id))
